@@ -837,7 +837,7 @@ def aobj_member(f: Folder, obj: AObj, attr: str) -> Any:
         if id(v) in PROCESS_STATE:
             return PROCESS_STATE[id(v)][1]
         owner = next((k for k in repo.mro(obj._cls_) if isinstance(k, ClassInfo) and attr in k.assigns), obj._cls_)
-        val = Evaluator({}, repo, owner.module, owner, f.hook).fold(v)
+        val = Evaluator({}, repo, owner.module if attr not in owner.__dict__.get("module_level_assigns", ()) else owner.module, owner if attr not in owner.__dict__.get("module_level_assigns", ()) else None, f.hook).fold(v)
         if isinstance(val, (set, list, dict, bytearray)) or type(val).__name__ == "AObj":
             # a mutable object made in the class body is ONE object for the life of the process, shared by all instances
             PROCESS_STATE[id(v)] = (v, val)
